@@ -102,6 +102,16 @@ type park struct {
 	hit     chan struct{} // closed when the hooked goroutine arrived
 	release chan struct{} // closed by the plan to let it continue
 	once    sync.Once
+	skip    atomic.Int32 // number of hits that pass before the one that parks
+	by      string       // goroutine class of the parked hit (set before hit is closed)
+}
+
+func (p *park) open() {
+	select {
+	case <-p.release:
+	default:
+		close(p.release)
+	}
 }
 
 type histRun struct {
@@ -116,7 +126,7 @@ type histRun struct {
 	pmu     sync.Mutex
 	parks   map[string]*park // key: point + "/" + task name
 	lastClr atomic.Pointer[taskRun]
-	hookHit [4]atomic.Int64
+	hookHit [5]atomic.Int64
 	notes   []string
 	supN    int
 	failed  string // harness-side problem: history is inconclusive
@@ -166,7 +176,8 @@ const (
 	hkCleared = "modules.task.cleared"
 	hkDefer   = "modules.task.defer"
 	hkPrelock = "modules.task.prelock"
-	hkPrerun  = "modules.task.prerun" // proposed additional point (top of runWithLocking); unused if absent
+	hkPrerun  = "modules.task.prerun"   // top of runWithLocking, before the task lock is taken
+	hkSched   = "modules.sched.decided" // schedule handler: after its unlock, before runWithLocking / StartASAP
 )
 
 func startWorld() (*world, error) {
@@ -185,7 +196,7 @@ func startWorld() (*world, error) {
 		w.sentinelRuns.Add(1)
 		return nil
 	}).MaxDelay(0)
-	for i, p := range []string{hkCleared, hkDefer, hkPrelock, hkPrerun} {
+	for i, p := range []string{hkCleared, hkDefer, hkPrelock, hkPrerun, hkSched} {
 		i, p := i, p
 		vhook.Set(p, func(point, subject string) { w.onHook(i, p, subject) })
 	}
@@ -225,6 +236,8 @@ func (w *world) onHook(i int, point, subject string) {
 	case hkCleared:
 		hr.log.rec(Ev{K: "hook", Op: "cleared", Task: tr.idx, By: startedBy()})
 		hr.lastClr.Store(tr)
+	case hkSched:
+		hr.log.rec(Ev{K: "hook", Op: "decided", Task: tr.idx})
 	case hkPrerun:
 		hr.log.rec(Ev{K: "hook", Op: "prerun", Task: tr.idx, By: startedBy()})
 	case hkPrelock:
@@ -243,9 +256,13 @@ func (w *world) onHook(i int, point, subject string) {
 	p := hr.parks[point+"/"+subject]
 	hr.pmu.Unlock()
 	if p != nil {
+		if p.skip.Add(-1) >= 0 {
+			return
+		}
 		first := false
 		p.once.Do(func() { first = true })
 		if first {
+			p.by = startedBy()
 			close(p.hit)
 			select {
 			case <-p.release:
@@ -273,8 +290,12 @@ func (w *world) onHook(i int, point, subject string) {
 	}
 }
 
-func (hr *histRun) park(point string, task int) *park {
+func (hr *histRun) park(point string, task int) *park { return hr.parkNth(point, task, 0) }
+
+// parkNth parks the (skip+1)-th arrival at the point for the task.
+func (hr *histRun) parkNth(point string, task int, skip int) *park {
 	p := &park{hit: make(chan struct{}), release: make(chan struct{})}
+	p.skip.Store(int32(skip))
 	hr.pmu.Lock()
 	hr.parks[point+"/"+hr.tasks[task].name] = p
 	hr.pmu.Unlock()
@@ -838,6 +859,44 @@ func (hr *histRun) runPlan(limit time.Duration) bool {
 			hr.do(c, 0, Op{Kind: opSchedule, Task: T, OffMs: off})
 			hr.do(c, 0, Op{Kind: opQueue, Task: U})
 		}
+	case "overdue-parked":
+		// The queue slot is held by U; T is queued with a short max delay, so its first
+		// start is the overdue path of the schedule handler. That start is parked at its
+		// very entry (prerun, before the task lock). If it runs on the schedule handler
+		// itself (as in the original code) the handler cannot do anything else meanwhile
+		// and the park is released at once. If it runs on another goroutine, the handler
+		// is given the chance to make its next round over the still-listed T: its next
+		// decision about T is parked after its unlock, the overdue start is let through
+		// (T is removed from all lists and begins), then the handler continues. Whether
+		// T then runs more often than it was submitted is decided by the usual oracles.
+		hr.tasks[U].block = make(chan struct{})
+		hr.tasks[T].spec.RunUs = []int{2000}
+		hr.do(c, 0, Op{Kind: opQueue, Task: U})
+		if hr.waitBegin(U, 1) {
+			pPre := hr.park(hkPrerun, T)
+			pDec := hr.parkNth(hkSched, T, 1)
+			hr.do(c, 0, Op{Kind: opMaxDelay, Task: T, DelayMs: md})
+			hr.do(c, 0, Op{Kind: vlibPickKind(hr), Task: T})
+			if hr.waitHit(pPre) {
+				if pPre.by != "sched" {
+					select {
+					case <-pDec.hit: // the handler decided about T again
+						hr.mark("overdue-start-overlapped-next-schedule-round")
+						pPre.open()
+						hr.waitBegin(T, 1)
+					case <-time.After(3 * time.Second): // pacing only
+					}
+				}
+			}
+			pPre.open()
+			pDec.open()
+			hr.waitBegin(T, 1)
+			// let a possible second start happen while U still holds the slot
+			if pPre.by != "sched" {
+				waitForAbort(&hr.abort, 5*time.Second, func() bool { return hr.tasks[T].runs.Load() >= 2 }) // pacing only
+			}
+		}
+		close(hr.tasks[U].block)
 	case "cancel-scheduled":
 		hr.do(c, 0, Op{Kind: opSchedule, Task: T, OffMs: 50})
 		hr.do(c, 0, Op{Kind: opCancel, Task: T})
